@@ -75,8 +75,30 @@ def _build_ruleset(spec: dict, strip_superiors: bool):
             return found
         return DynamicProfile(profile, "desc", find)
 
-    dynamic = {profile: make_profile(profile) for profile in ALL_PROFILES}
-    return Ruleset(tuple(parsed), {}, "", {"cat"}, "verif", dynamic_profiles=dynamic, equivalence_groups=[])
+    # profiles listed under "hmm" are served the HMMer way (signatures + the output of hmmsearch, which _run replaces by
+    # the hits of the spec), all others are dynamic profiles; a gene may have hits of both kinds
+    through_hmmer = set(spec.get("hmm") or [])
+    dynamic = {profile: make_profile(profile) for profile in ALL_PROFILES if profile not in through_hmmer}
+    signatures = {}
+    if through_hmmer:
+        from antismash.common.signature import HmmSignature
+        signatures = {profile: HmmSignature(profile, "desc", 0, "/verif-no-such-file.hmm") for profile in through_hmmer}
+    return Ruleset(tuple(parsed), signatures, "/verif-no-such-file.hmm", {"cat"}, "verif", dynamic_profiles=dynamic,
+                   equivalence_groups=[])
+
+
+def _hmmsearch_output(spec: dict) -> list:
+    """ what hmmsearch would report for the profiles listed under "hmm": one query result per profile, one hsp per hit gene """
+    class Plain:        # hashable by identity, as the search results of Biopython are
+        def __init__(self, **values) -> None:
+            self.__dict__.update(values)
+    output = []
+    for profile in sorted(spec.get("hmm") or []):
+        hsps = [Plain(query_id=profile, hit_id=gene, bitscore=float(found[profile]), evalue=1e-20,
+                      hit_start=0, hit_end=1, query_start=0, query_end=10)
+                for gene, found in sorted(spec["hits"].items()) if profile in found]
+        output.append(Plain(accession=profile, id=profile, hsps=hsps))
+    return output
 
 
 def _run(spec: dict, strip_superiors: bool):
@@ -94,11 +116,14 @@ def _run(spec: dict, strip_superiors: bool):
         captured["type_hits"] = {key: set(val) for key, val in result[1].items()}
         return result
     cluster_prediction.apply_cluster_rules = recording
+    original_search = cluster_prediction.run_hmmsearch
+    cluster_prediction.run_hmmsearch = lambda *_args, **_kwargs: _hmmsearch_output(spec)
     try:
         with code_under_test("detection_total"):
             results = cluster_prediction.detect_protoclusters_and_signatures(record, ruleset)
     finally:
         cluster_prediction.apply_cluster_rules = original
+        cluster_prediction.run_hmmsearch = original_search
     protos = []
     for proto in results.protoclusters:
         protos.append({"product": proto.product, "core": ring.from_bio(proto.core_location),
@@ -449,7 +474,8 @@ def detection_specs(draw) -> dict:
     for gene in genes:
         chosen = draw(st.lists(st.sampled_from(PROFILES), max_size=3, unique=True))
         hits[gene["name"]] = {p: draw(st.sampled_from([9, 10, 50, 100])) for p in chosen}
-    return {"L": length, "circular": circular, "genes": genes, "hits": hits, "rules": spec_rules}
+    through_hmmer = draw(st.lists(st.sampled_from(PROFILES), max_size=3, unique=True)) if draw(st.booleans()) else []
+    return {"L": length, "circular": circular, "genes": genes, "hits": hits, "rules": spec_rules, "hmm": through_hmmer}
 
 
 @st.composite
